@@ -960,6 +960,47 @@ func ruleC19Arms(r *Run) {
 	r.Check(rule, "render.Auto:first supported type wins", fd.Pos(), okStop, "the loop over the Accept list stops at the first handled type")
 }
 
+// C19-JSONP: the JSONP renderer frames the encoded value as callback( ... );
+func ruleC19JSONP(r *Run) {
+	w := r.W
+	rule := "C19-JSONP"
+	r.Floor(rule, 2)
+	f := w.Fn("render", "JSONPRenderer.Render")
+	var open, enc, closeW ssa.Instruction
+	eachInstr(f, func(in ssa.Instruction) {
+		c, ok := in.(*ssa.Call)
+		if !ok {
+			return
+		}
+		if strings.HasSuffix(calleeName(c), "json.Encoder).Encode") {
+			enc = in
+		}
+		if c.Call.IsInvoke() && c.Call.Method.Name() == "Write" {
+			arg := c.Call.Args[0]
+			if cv, ok := arg.(*ssa.Convert); ok {
+				arg = cv.X
+			}
+			if b, ok := arg.(*ssa.BinOp); ok && b.Op == token.ADD {
+				if s, okc := constString(b.Y); okc && s == "(" && strings.HasSuffix(canon(b.X), ".Callback") {
+					open = in
+				}
+			}
+			if s, okc := constString(arg); okc && s == ");" {
+				closeW = in
+			}
+		}
+	})
+	ok := open != nil && enc != nil && closeW != nil && dominates(open, enc) && dominates(enc, closeW)
+	r.Check(rule, "(render.JSONPRenderer).Render:framing", f.Pos(), ok, map[bool]string{true: "writes Callback + \"(\", then the JSON encoding, then \");\" in that order", false: "the JSONP body is not framed as callback( <json> );"}[ok])
+	// the value encoded is the object given
+	okObj := false
+	if enc != nil {
+		a := enc.(*ssa.Call).Call.Args
+		okObj = len(a) == 2 && a[1] == ssa.Value(f.Params[2])
+	}
+	r.Check(rule, "(render.JSONPRenderer).Render:value", f.Pos(), okObj, "the encoded value is the object passed to the renderer")
+}
+
 func ruleC19Err(r *Run) {
 	w := r.W
 	rule := "C19-ERR"
@@ -1512,7 +1553,7 @@ func init() {
 			NotDecided:  []string{"that the body decodes back to the value; JSONP framing bytes", "which status wins when a helper is called after the commit (C08)"},
 			Assumptions: []string{"goutil httpctype constants are the documented content types"},
 		},
-		Rules: []ruleFn{{"C19-STATUS", ruleC19Status}, {"C19-CTYPE", ruleC19CType}, {"C19-NOOVERRIDE", ruleC19NoOverride}, {"C19-ARMS", ruleC19Arms}, {"C19-ERR", ruleC19Err}, {"C03-POOL", ruleC03Pool}, {"C08-LATCH", ruleC08Latch}, {"C08-PRECOMMIT", ruleC08Precommit}},
+		Rules: []ruleFn{{"C19-STATUS", ruleC19Status}, {"C19-CTYPE", ruleC19CType}, {"C19-NOOVERRIDE", ruleC19NoOverride}, {"C19-ARMS", ruleC19Arms}, {"C19-ERR", ruleC19Err}, {"C19-JSONP", ruleC19JSONP}, {"C03-POOL", ruleC03Pool}, {"C08-LATCH", ruleC08Latch}, {"C08-PRECOMMIT", ruleC08Precommit}},
 	})
 	register(&property{
 		Meta: propertyMeta{
